@@ -54,6 +54,15 @@ CLAIMS = {'C01': {'note': 'Not decided (SQL): the upsert input=input+excluded.in
                  'Transaction.Reverse/WithPostings/WithTimestamp carry it; revertTransaction returns nil only if the store reported the transaction as newly reverted, commits exactly one transaction '
                  'whose postings are the reverse of the original, dated at the original timestamp (atEffectiveDate) or at RevertedAt, and marked with the reverts key = the original id (MarkReverts, '
                  'Merge order).'},
+ 'C17': {'note': 'Not decided (SQL): last-write-wins merge (metadata || ?), deletion (metadata - ?), the history triggers, what the joined sub-select returns, chart default metadata on insert. '
+                 'Assumed: each bun builder method records its own argument and keeps what was recorded before (assumed contracts on Join/ColumnExpr/Column/Where/...); time.Time.IsZero is a function '
+                 'of its receiver.',
+         'ref': 'DESIGN.md §4 C17',
+         'text': 'Go gates only — which feature decides the point-in-time metadata read, proved on the query builders for every option value and all four feature combinations: '
+                 'transactionsResourceHandler.BuildDataset joins the transactions_metadata history exactly when TRANSACTION_METADATA_HISTORY == SYNC and a non-zero PIT is given, and selects the '
+                 'current `metadata` column exactly otherwise; accountsResourceHandler.BuildDataset likewise with ACCOUNT_METADATA_HISTORY and accounts_metadata / accounts.metadata. The bun query '
+                 'builder is abstracted to a descriptor (which JOIN fragments and column expressions a query carries). The transactions clause was refuted on the original tree (finding F8: the '
+                 'account feature was tested) and is repaired.'},
  'C21': {'note': 'Assumed: the database returns rows matching ORDER/WHERE/LIMIT; the sort key is unique; cursor (de)serialisation is the identity; the pagination key of a row (reflection) is an '
                  'uninterpreted function; the clauses on next/previous are assertions on local variables at the return statement because encodeCursor is opaque. A forged cursor with paginationID set '
                  'and bottom null makes BuildCursor dereference nil when the page is empty (precondition of the contract; candidate finding noted in DESIGN.md).',
@@ -129,6 +138,15 @@ CLAIMS = {'C01': {'note': 'Not decided (SQL): the upsert input=input+excluded.in
                  "the bulker's controller; an atomic bulk runs on the controller returned by BeginTX, rolls back exactly once and never commits when an element failed, and attempts exactly one "
                  "commit (error propagated) otherwise. processElement is proved to issue at most one controller write per element, exactly one on success, on the given controller, with the element's "
                  "idempotency key, the bulk's schema version and DryRun=false, and never to panic for a decoded element."},
+ 'C35': {'note': 'Not decided: that the transactions, logs, balances and metadata produced by a history are identical across the 48 combinations (which triggers default_bucket.go installs, and SQL); '
+                 'the HASH_LOGS branch of InsertLog; accounts Expand(volumes) without PIT is refused although it would not need the moves table (over-strict, not a wrong answer). Assumed: the bun '
+                 'builder contracts of C17; regexp.MatchString/FindAllStringSubmatch shape facts.',
+         'ref': 'DESIGN.md §4 C35',
+         'text': 'Go gates, proved for every feature map and every query: Store.CommitTransaction calls UpdateVolumes and InsertTransaction independently of the features and InsertMoves iff '
+                 'MOVES_HISTORY == ON; a read that needs a disabled feature is refused with ErrMissingFeature and no query: volumes BuildDataset with PIT or OOT needs MOVES_HISTORY; aggregated '
+                 'balances at a PIT need MOVES_HISTORY (insertion date) or MOVES_HISTORY_POST_COMMIT_EFFECTIVE_VOLUMES (effective date); accounts balance filters at a PIT need both; accounts '
+                 'Expand(volumes / effectiveVolumes) and transactions Expand(effectiveVolumes) need their feature; Ledger.HasFeature is only called with valid (feature, value) pairs (its panic is '
+                 'unreachable). Two missing gates were found as refuted obligations and repaired (F12, F13).'},
  'C38': {'note': "Not covered: the chi router and status-code mapping of every route, HydrateLog's reflection, DefaultController.Import's outer loop (reads through an interface chain that is "
                  "opaque). 'Ledger unchanged' is C07.",
          'ref': 'DESIGN.md §4 C38',
@@ -136,25 +154,29 @@ CLAIMS = {'C01': {'note': 'Not decided (SQL): the upsert input=input+excluded.in
                  'Bulker.processElement, LogType / SavedMetadata / DeletedMetadata UnmarshalJSON (F9, F10 fixed) and importLog (F11 fixed: nil ids, unchecked type assertions on imported logs, which '
                  'run in a goroutine outside the recover middleware).'}}
 
-NA = {
- "C04": "Effective volumes are computed by the PL/pgSQL triggers set_effective_volumes / update_effective_volumes; no Go function computes them, so no contract on the Go code can state or decide the property.",
- "C05": "Point-in-time / window reads are SQL text (first_value ... over, date predicates); a contract can say which string was built, not what Postgres returns for it.",
- "C09": "Hash chain linearity is pg_advisory_xact_lock plus a BEFORE INSERT trigger under concurrent sessions; SHA-256 and session interleavings are outside a WP calculus over sequential Go.",
- "C10": "Byte-for-byte agreement of encoding/json output with an SQL string concatenation over adversarial strings: both sides are outside the verifier (reflection-driven encoder, PL/pgSQL).",
- "C11": "Whole-system round trip through export, import, sequence resync and three write paths on a database; no single function or data-structure invariant carries it.",
- "C12": "Exclusivity rests on Postgres advisory locks and the _system.ledgers state row under concurrent sessions; the Go code only issues the statements.",
- "C14": "Uniqueness is a partial unique index; the Go side is a constraint-name to error mapping, too thin to stand for the property.",
- "C16": "Id allocation and ordering are Postgres sequences and commit order.",
- "C17": "Last-write-wins merge, deletion and history are SQL (metadata || ?, metadata - ?, history triggers, PIT joins). The only Go part is which feature flag selects the history join inside the bun query builders of resource_accounts.go / resource_transactions.go; those builders are closures over *bun.SelectQuery chains whose meaning is the SQL they emit, so a contract on them would restate the code rather than decide the property. Chart default metadata values are covered under C29 (ChartAccount.DefaultMetadata).",
- "C18": "Existence / first-usage rules are the UpsertAccounts CTE (LEAST(first_usage), insert-if-absent); the Go fragment does not decide the property.",
- "C19": "Isolation is a ledger = ? predicate in every SQL statement and its interaction with the alone-in-bucket optimisation; that is a property of query results.",
- "C20": "Filter semantics live in generated SQL (@>, lateral joins, jsonb operators); needs the database as oracle.",
- "C25": "Recording 'exactly as submitted' goes through TxToScriptData -> ANTLR parse -> compile -> Machine.Execute; the ANTLR-generated parser and the visitor-based compiler are outside the generator's Go subset (reflection-free but thousands of generated lines, interface-heavy), and the Machine.tick step invariant is not established (work in progress, tag W01). The reachable pieces are proved under other properties: Postings.Validate and TransactionRequest.ToCore (C28/C38), TxToScriptData panic-freedom (C27), withdrawAll / Funding.Take exactness (C22/C23). A bounded stand-in would be a test, not a contract proof, and is not claimed.",
- "C26": "Differential agreement with github.com/formancehq/numscript, an external library without contracts; a relational property between two implementations, not a contract on one.",
- "C30": "The round trip is ChartSegment.MarshalJSON / UnmarshalJSON over map[string]any built by encoding/json (reflection) and a recursive map-of-struct chart; neither the JSON codec nor the recursive chart type is within the generator's subset, and a bounded enumeration would be a test rather than a contract proof.",
- "C33": "Goroutines, select, timers, at-least-once delivery and liveness: concurrency and eventuality are outside this family (no thread or temporal reasoning in a WP calculus).",
- "C34": "create_blocks is a stored procedure; commit/id reordering is a database-concurrency phenomenon.",
- "C35": "Identical outcomes across the 48 feature combinations are decided by which triggers default_bucket.go installs and by SQL; the Go gates (HasFeature in CommitTransaction, missing-feature errors in the resource handlers' bun query builders) are partly proved as side obligations of C03 (moves inserted iff MOVES_HISTORY is ON) but the read-side gates live in closures over bun query chains that the generator does not model, so the property as stated is not claimed.",
- "C36": "Exactness through SQL numeric, JSON encoders and every API version is outside the Go contracts. All arithmetic proofs here (C01-C03, C22-C24) are over unbounded integers with math/big assumed exact, and ScriptV1.ToCore is proved panic-free (C38), but the float64 conversion in ScriptV1.ToCore (design-review item) is a precision question about encoding/json number decoding that the SMT model of floats does not cover; nothing is claimed.",
- "C37": "Result equality between a template run and a direct query depends on the store; the Go part is JSON/string templating (ResolveFilterTemplate) that the generator cannot reach; templateParamsToQuery is covered under C21.",
-}
+NA = {'C04': 'Effective volumes are computed by the PL/pgSQL triggers set_effective_volumes / update_effective_volumes; no Go function computes them, so no contract on the Go code can state or decide the '
+        'property.',
+ 'C05': 'Point-in-time / window reads are SQL text (first_value ... over, date predicates); a contract can say which string was built, not what Postgres returns for it.',
+ 'C09': 'Hash chain linearity is pg_advisory_xact_lock plus a BEFORE INSERT trigger under concurrent sessions; SHA-256 and session interleavings are outside a WP calculus over sequential Go.',
+ 'C10': 'Byte-for-byte agreement of encoding/json output with an SQL string concatenation over adversarial strings: both sides are outside the verifier (reflection-driven encoder, PL/pgSQL).',
+ 'C11': 'Whole-system round trip through export, import, sequence resync and three write paths on a database; no single function or data-structure invariant carries it.',
+ 'C12': 'Exclusivity rests on Postgres advisory locks and the _system.ledgers state row under concurrent sessions; the Go code only issues the statements.',
+ 'C14': 'Uniqueness is a partial unique index; the Go side is a constraint-name to error mapping, too thin to stand for the property.',
+ 'C16': 'Id allocation and ordering are Postgres sequences and commit order.',
+ 'C18': 'Existence / first-usage rules are the UpsertAccounts CTE (LEAST(first_usage), insert-if-absent); the Go fragment does not decide the property.',
+ 'C19': 'Isolation is a ledger = ? predicate in every SQL statement and its interaction with the alone-in-bucket optimisation; that is a property of query results.',
+ 'C20': 'Filter semantics live in generated SQL (@>, lateral joins, jsonb operators); needs the database as oracle.',
+ 'C25': "Recording 'exactly as submitted' goes through TxToScriptData -> ANTLR parse -> compile -> Machine.Execute; the ANTLR-generated parser and the visitor-based compiler are outside the "
+        "generator's Go subset (reflection-free but thousands of generated lines, interface-heavy), and the Machine.tick step invariant is not established (work in progress, tag W01). The reachable "
+        'pieces are proved under other properties: Postings.Validate and TransactionRequest.ToCore (C28/C38), TxToScriptData panic-freedom (C27), withdrawAll / Funding.Take exactness (C22/C23). A '
+        'bounded stand-in would be a test, not a contract proof, and is not claimed.',
+ 'C26': 'Differential agreement with github.com/formancehq/numscript, an external library without contracts; a relational property between two implementations, not a contract on one.',
+ 'C30': 'The round trip is ChartSegment.MarshalJSON / UnmarshalJSON over map[string]any built by encoding/json (reflection) and a recursive map-of-struct chart; neither the JSON codec nor the '
+        "recursive chart type is within the generator's subset, and a bounded enumeration would be a test rather than a contract proof.",
+ 'C33': 'Goroutines, select, timers, at-least-once delivery and liveness: concurrency and eventuality are outside this family (no thread or temporal reasoning in a WP calculus).',
+ 'C34': 'create_blocks is a stored procedure; commit/id reordering is a database-concurrency phenomenon.',
+ 'C36': 'Exactness through SQL numeric, JSON encoders and every API version is outside the Go contracts. All arithmetic proofs here (C01-C03, C22-C24) are over unbounded integers with math/big '
+        'assumed exact, and ScriptV1.ToCore is proved panic-free (C38), but the float64 conversion in ScriptV1.ToCore (design-review item) is a precision question about encoding/json number decoding '
+        'that the SMT model of floats does not cover; nothing is claimed.',
+ 'C37': 'Result equality between a template run and a direct query depends on the store; the Go part is JSON/string templating (ResolveFilterTemplate) that the generator cannot reach; '
+        'templateParamsToQuery is covered under C21.'}
